@@ -23,3 +23,16 @@ case "$1" in
  C18) run C18 $R:Client.configure $R:Client.reconfigure $R:Client.__init__ ;;
  C19) run C19 $R:register_trap_callback puresnmp/transport.py:SNMPTrapReceiverProtocol.datagram_received puresnmp/pdu.py:Trap.__init__ ;;
 esac
+# round 2: functions one property shares with another, and re-runs after the checks were strengthened
+case "$1" in
+ C02b) p=C02; python3 tools/mutate.py C02 $R:deduped_varbinds $U:group_varbinds $U:get_unfinished_walk_oids $R:Client.multiwalk > mutation/C02b.log 2>&1 ;;
+ C04b) python3 tools/mutate.py C04 $R:Client.bulkget $R:Client.multigetnext > mutation/C04b.log 2>&1 ;;
+ C03b) python3 tools/mutate.py C03 $R:Client._walk_stalled $R:Client.multiwalk $R:Client.multigetnext $U:get_unfinished_walk_oids > mutation/C03b.log 2>&1 ;;
+ C11b) python3 tools/mutate.py C11 puresnmp_plugins/security/usm.py:apply_encryption puresnmp_plugins/security/usm.py:decrypt_message puresnmp_plugins/security/usm.py:UserSecurityModel.process_incoming_message puresnmp_plugins/security/usm.py:UserSecurityModel.generate_request_message puresnmp/util.py:localise_key > mutation/C11b.log 2>&1 ;;
+ C19b) python3 tools/mutate.py C19 $R:register_trap_callback puresnmp/transport.py:SNMPTrapReceiverProtocol.datagram_received puresnmp/pdu.py:Trap.__init__ puresnmp_plugins/mpm/v2c.py:V2CMPM.decode > mutation/C19b.log 2>&1 ;;
+ C09b) python3 tools/mutate.py C09 puresnmp_plugins/auth/hashbase.py:for_incoming puresnmp_plugins/auth/hashbase.py:get_message_digest puresnmp_plugins/security/usm.py:verify_authentication puresnmp_plugins/security/usm.py:reset_digest puresnmp_plugins/mpm/v3.py:V3MPM.decode > mutation/C09b.log 2>&1 ;;
+ C14b) python3 tools/mutate.py C14 $R:Client._send $R:Client.multiget puresnmp_plugins/mpm/v3.py:V3MPM.encode > mutation/C14b.log 2>&1 ;;
+ C06b) python3 tools/mutate.py C06 puresnmp_plugins/security/usm.py:UserSecurityModel.process_incoming_message puresnmp_plugins/security/usm.py:decrypt_message puresnmp/adt.py:Message.decode puresnmp/adt.py:Message.from_sequence puresnmp/adt.py:ScopedPDU.decode puresnmp_plugins/security/usm.py:USMSecurityParameters.decode puresnmp_plugins/security/usm.py:USMSecurityParameters.from_snmp_type > mutation/C06b.log 2>&1 ;;
+ C05b) python3 tools/mutate.py C05 puresnmp/adt.py:Message.__bytes__ puresnmp/adt.py:HeaderData.__bytes__ puresnmp/adt.py:ScopedPDU.__bytes__ puresnmp/adt.py:V3Flags.__bytes__ puresnmp_plugins/security/usm.py:USMSecurityParameters.as_snmp_type puresnmp_plugins/security/usm.py:USMSecurityParameters.__bytes__ puresnmp_plugins/security/usm.py:apply_authentication puresnmp_plugins/security/usm.py:apply_encryption puresnmp/pdu.py:BulkGetRequest.__init__ > mutation/C05b.log 2>&1 ;;
+ C12b) python3 tools/mutate.py C12 puresnmp_plugins/security/usm.py:UserSecurityModel.set_engine_timing puresnmp_plugins/security/usm.py:UserSecurityModel.generate_request_message puresnmp_plugins/mpm/v3.py:V3MPM.encode > mutation/C12b.log 2>&1 ;;
+esac
